@@ -342,3 +342,83 @@ def waiters_program(rng, kind=None):
                 root.append({'op': 'cancel', 'k': -rng.randint(1, n)})
     root.append({'op': 'leave'})
     return {'start': 0, 'roots': [root]}
+
+
+# ---------------------------------------------------------------------------------------------------------------
+# tear-down storms: children blocked in every kind of wait are cancelled / closed / left behind, then inspected
+def teardown_program(rng):
+    """a scope full of children that hold or wait for a lock (nested up to depth 3), a supply, a level comparison, a
+    queue, a delayed start, a sleep; the scope is then left normally (volatile children are closed), aborted by an
+    exception in its body or by a failing child (everybody is closed), or it is an until-block that expires; single
+    children are cancelled before; afterwards the root lets time pass (stale wake-ups would fire now) and inspects
+    what is left: task outcomes (awaited twice), the lock, the level of the supply, the queue.
+    World: storm.BIG (1 supply of 1.. , 2 locks, 1 queue, 2 flags)."""
+    n = rng.randint(2, 5)
+
+    def hold():
+        return rng.choice([[{'op': 'await_f', 'f': 1, 'v': True}], [{'op': 'sleep', 'd': rng.choice([1, 2, 3])}],
+                           [{'op': 'instant'}], [{'op': 'instant'}, {'op': 'sleep', 'd': 1}]])
+
+    def worker():
+        kind = rng.choice(['lock', 'lock', 'borrow', 'lvl', 'get', 'sleep', 'nested', 'tick'])
+        if kind == 'lock':
+            depth = rng.choice([1, 1, 2, 3])
+            return [{'op': 'enter', 'l': 1}] * depth + hold() + [{'op': 'leave'}] * depth
+        if kind == 'borrow':
+            return [{'op': rng.choice(['borrow', 'borrow', 'claim']), 'p': 1, 'amt': rng.choice([0, 1, 1])}] + hold() + [{'op': 'leave'}]
+        if kind == 'lvl':
+            return [{'op': 'await_lvl', 'p': 1, 'v': rng.choice([1, 1, 2]), 'rel': rng.choice(['ge', 'ge', 'gt', 'eq']),
+                     'shared': False}, {'op': 'levels', 'p': 1}]
+        if kind == 'get':
+            return [{'op': 'get', 'q': 1}]
+        if kind == 'nested':
+            return [{'op': 'open', 'kind': 'scope', 'catch': rng.random() < 0.7},
+                    {'op': 'do', 's': -1, 'vol': False, 'd': 0, 'fin': 'none', 'prog': hold()}] + hold() + [{'op': 'leave'}]
+        if kind == 'tick':
+            i = rng.randint(1, 4)
+            return [dict(op='tick', i=i, **TICKS[i - 1])] * rng.randint(1, 2)
+        return [{'op': 'sleep', 'd': rng.choice([1, 2, 3])}]
+    how = rng.choice(['leave', 'leave', 'raise', 'childfail', 'until'])
+    # (an outer block: if the inner one is aborted, its `leave` is consumed by the outer one and the inspection still runs)
+    root = [{'op': 'open', 'kind': 'scope', 'catch': True},
+            {'op': 'open', 'kind': 'until_d', 'd': rng.choice([1, 2]), 'catch': True} if how == 'until'
+            else {'op': 'open', 'kind': 'scope', 'catch': True}]
+    for _ in range(n):
+        root.append({'op': 'do', 's': -1, 'vol': rng.random() < 0.4, 'd': rng.choice([0, 0, 0, 1, 2]),
+                     'fin': rng.choice(['none', 'none', 'none', 'grace']), 'prog': worker()})
+    if how == 'childfail':
+        root.append({'op': 'do', 's': -1, 'vol': False, 'd': rng.choice([0, 1]), 'fin': 'none',
+                     'prog': [{'op': 'instant'}] * rng.randint(0, 2) + [{'op': 'raise', 'cls': 'Key'}]})
+    for _ in range(rng.randint(0, 3)):
+        r = rng.random()
+        if r < 0.3:
+            root.append({'op': 'instant'})
+        elif r < 0.5:
+            root.append({'op': 'sleep', 'd': 1})
+        elif r < 0.75:
+            k = -rng.randint(1, n)
+            root.append({'op': 'cancel', 'k': k})
+            if rng.random() < 0.5:
+                root.append({'op': 'status', 'k': k})
+        elif r < 0.85:
+            root.append({'op': 'put', 'q': 1})
+        else:
+            root.append({'op': 'fset', 'f': 1, 'v': True})
+    if how == 'raise':
+        root.append({'op': 'raise', 'cls': 'Index'})       # (aborts the block: no `leave` of its own)
+    else:
+        if how == 'until':
+            root.append({'op': 'sleep', 'd': 3})
+        root.append({'op': 'leave'})
+    # post mortem
+    root.append({'op': 'sleep', 'd': 4})
+    for j in range(1, n + 1):
+        root += [{'op': 'status', 'k': -j}, {'op': 'await_t', 'k': -j}, {'op': 'await_t', 'k': -j}]
+    root += [{'op': 'avail', 'l': 1}, {'op': 'enter', 'l': 1}, {'op': 'leave'}, {'op': 'levels', 'p': 1},
+             {'op': 'claim', 'p': 1, 'amt': 1}, {'op': 'leave'}, {'op': 'put', 'q': 1}, {'op': 'get', 'q': 1}, {'op': 'leave'}]
+    roots = [root]
+    if rng.random() < 0.5:       # a bystander that uses the same lock / supply / level meanwhile
+        roots.append(rng.choice([[{'op': 'sleep', 'd': 1}, {'op': 'enter', 'l': 1}, {'op': 'instant'}, {'op': 'leave'}],
+                                 [{'op': 'await_lvl', 'p': 1, 'v': 1, 'rel': 'ge', 'shared': False}, {'op': 'levels', 'p': 1}],
+                                 [{'op': 'sleep', 'd': 2}, {'op': 'borrow', 'p': 1, 'amt': 1}, {'op': 'leave'}]]))
+    return {'start': 0, 'roots': roots}
